@@ -6,7 +6,7 @@
 From Coq Require Import ZArith List Bool.
 From RP Require Import Sched.Model Sched.NodeMap Sched.Inv Sched.SchedProofs Sched.RunProofs.
 From Coq Require String.
-From RP Require AppSlots.Model AppSlots.Oracle AppSlots.NodeProofs AppSlots.InvProofs AppSlots.Proofs.
+From RP Require AppSlots.Model AppSlots.Oracle AppSlots.NodeProofs AppSlots.Hang AppSlots.InvProofs AppSlots.Proofs.
 Import ListNotations.
 Open Scope Z_scope.
 
@@ -79,7 +79,7 @@ Proof. vm_compute. auto. Qed.
 
 Module AppSide.
 Import Coq.Strings.String.
-Import RP.AppSlots.Model RP.AppSlots.Oracle RP.AppSlots.NodeProofs RP.AppSlots.InvProofs RP.AppSlots.Proofs.
+Import RP.AppSlots.Model RP.AppSlots.Oracle RP.AppSlots.NodeProofs RP.AppSlots.Hang RP.AppSlots.InvProofs RP.AppSlots.Proofs.
 Open Scope string_scope.
 Open Scope Z_scope.
 
@@ -129,11 +129,14 @@ Theorem C01_app_reached_no_oversubscription :
 Proof. exact reached_no_oversubscription. Qed.
 Print Assumptions C01_app_reached_no_oversubscription.
 
-(* the unbounded `while True` of find_slots ends (the model's EHang answer never occurs) *)
+(* the unbounded `while True` of find_slots ends (the model's EHang answer never occurs) -- in ANY
+   state of the node list, also one left by releases of slots that were not held (occupations
+   outside FREE .. BUSY), for requests with non-negative sizes and a core occupation of at least
+   one unit *)
 Theorem C01_app_find_slots_terminates :
-  forall (ns0 : list node) (nl : nlist) (h : list slot) (r : rreq) (n : Z) (nl' : nlist) (res : res),
-    Reached ns0 nl h -> rr_ok r -> 0 < r_co r -> find_slots nl r n = (nl', res) -> res <> RErr EHang.
-Proof. exact find_slots_no_hang. Qed.
+  forall (nl : nlist) (r : rreq) (n : Z) (nl' : nlist) (res : res),
+    0 <= r_nc r -> 0 <= r_ng r -> 0 < r_co r -> find_slots nl r n = (nl', res) -> res <> RErr EHang.
+Proof. exact find_slots_never_hangs. Qed.
 Print Assumptions C01_app_find_slots_terminates.
 
 Example C01_app_nonvacuous :
